@@ -16,6 +16,7 @@ func init() {
 	register(&Prop{ID: "C19", Run: runC19, NeedDeps: true,
 		Technique: "static analysis: guard-propagating call-graph reachability (go/ssa + call graph) from the non-evaluating entry points to side-effect sinks, with boolean-parameter polarity inherited from all call sites",
 		Decided: []string{
+			"every value that holds its own copy of the no-evaluation switch gets that copy set where it is created (C19.licence-initialised)",
 			"from LoadYAML / LoadMetadata / LoadWithoutEval, the read-only DAGStore methods and the daemon's entry reader, no call path - continued into library functions through their static calls (e.g. a shell-words parser that runs backtick substitutions) - reaches process creation, environment mutation or file-system mutation unless some call site on the path is dominated by an evaluation licence (`!noEval`, or a boolean parameter that every caller binds to `!noEval`) (C19.sinks)",
 			"the evaluating loader dag.Load is called only from command bodies in package cmd (C19.eval-loader-callers)",
 		},
@@ -534,6 +535,7 @@ func runC19(e *Env) {
 		r.Check(ok, "call of "+ShortFn(evalLoader)+" from "+host, e.InstrPos(ci),
 			"the evaluating loader (runs command substitutions, exports variables) is called from outside the CLI command bodies — e.g. from a store or API path that only lists/shows/validates")
 	}
+	c19LicenceInitialised(e)
 }
 
 func shortName(f *ssa.Function) string {
